@@ -288,6 +288,14 @@ KERNELS = [
          opaque_fn={"randc01": ("randcFn", ["Int"]), "randn01": ("randnFn", ["Int"])}),
     dict(name="SHADE_update_u_F", file="optimizers/_shade.py", cls="SHADE", func="_update_u_F", params=[("u_F", "Int"), ("S_F", "Arr")], ret="Int", normalise_returns=True,
          opaque_fn={"lehmer_mean": ("lehmerFn", ["Arr"])}),
+    # ---- the greedy replacement block at the end of DifferentialEvolution._get_new_population (suffix translation: the statements from
+    #      `mask = ...` on; the evaluated trials are parameters; individuals are identifiers; the three population arrays are returned)
+    dict(name="DE_greedy_replacement", file="optimizers/_differentialevolution.py", cls="DifferentialEvolution", func="_get_new_population", params=[], ret="Mat",
+         start_at="mask = ", inputs={"mutant_cr_b_g": "Arr", "mutant_cr_ph": "Arr", "mutant_cr_fit": "Arr"},
+         self_arrays=["_population_g_i", "_population_ph_i", "_fitness_i"]),
+    dict(name="jDE_greedy_replacement", file="optimizers/_jde.py", cls="jDE", func="_get_new_population", params=[], ret="Mat",
+         start_at="mask = ", inputs={"mutant_cr_b_g": "Arr", "mutant_cr_ph": "Arr", "mutant_cr_fit": "Arr", "mutate_F": "Arr", "mutate_CR": "Arr"},
+         self_arrays=["_population_g_i", "_population_ph_i", "_fitness_i", "_F", "_CR"]),
     dict(name="tournament_selection", file="utils/selections.py", func="tournament_selection",
          params=[("fitness", "Arr"), ("rank", "Arr"), ("tour_size", "Int"), ("quantity", "Int")], ret="Arr",
          ext_fn={"random_sample": ("sampler", ["range_size", "quantity", "replace"])}),
@@ -347,6 +355,7 @@ class Tr:
     def __init__(self, fn: ast.FunctionDef, cfg: dict):
         self.fn, self.cfg = fn, cfg
         self.params = {n: t for n, t in cfg["params"] if t != "Opaque"}
+        self.params.update(cfg.get("inputs", {}))
         self.self_attrs = cfg.get("self_attrs", {})
         self.ext = cfg.get("ext", {})
         self.ext_stream = cfg.get("ext_stream", {})
@@ -364,6 +373,7 @@ class Tr:
         self.opaque_unpack = cfg.get("opaque_unpack", {})
         self.self_items = cfg.get("self_items", {})
         self.self_append = cfg.get("self_append", [])
+        self.self_arrays = cfg.get("self_arrays", [])
         self.actions = cfg.get("actions", {})
         self.bool_stream = cfg.get("bool_stream", {})
         self.not_none = cfg.get("not_none", {})
@@ -375,6 +385,7 @@ class Tr:
         self.locals: dict[str, str] = {}
         self.ntmp = 0
         self.tmps: dict[str, str] = {"app" + a_: "Arr" for a_ in self.self_append}
+        self.tmps.update({"arr" + a_: "Arr" for a_ in cfg.get("self_arrays", [])})
         self.keyconsts: dict[str, float] = {}
         self.used_streams: set = set()
         self.collect(fn.body)
@@ -403,6 +414,10 @@ class Tr:
             return t
         if isinstance(e, ast.Compare) and len(e.ops) == 1 and isinstance(e.ops[0], ast.Gt) and not isinstance(e.left, ast.Constant) \
                 and self._safe_ty(e.left) == "Arr":
+            return "Arr"
+        if self.is_mask_ge(e):
+            return "Arr"
+        if isinstance(e, ast.Attribute) and self.self_path(e) in getattr(self, "self_arrays", []):
             return "Arr"
         if isinstance(e, (ast.Compare, ast.BoolOp)) or (isinstance(e, ast.UnaryOp) and isinstance(e.op, ast.Not)):
             return "Bool"
@@ -782,6 +797,11 @@ class Tr:
                 return self.self_items[d][e.slice.value]
         return None
 
+    def is_mask_ge(self, e):
+        """<array> >= <array> : the elementwise mask"""
+        return (isinstance(e, ast.Compare) and len(e.ops) == 1 and isinstance(e.ops[0], ast.GtE)
+                and self._safe_ty(e.left) == "Arr" and self._safe_ty(e.comparators[0]) == "Arr")
+
     def static_true(self, test):
         """`len(P) == 1` for a parameter P declared as a one-element list of trees"""
         return (isinstance(test, ast.Compare) and len(test.ops) == 1 and isinstance(test.ops[0], ast.Eq)
@@ -967,6 +987,8 @@ class Tr:
                 return self.self_attrs[dotted][0]
             if dotted is not None and dotted in self.self_state:
                 return f"s.self{dotted}"
+            if dotted is not None and dotted in self.self_arrays:
+                return f"s.arr{dotted}"
             if e.attr == "size" and self.ty(e.value) == "Arr":
                 return f"(Imp.leni {self.E(e.value, env)})"
             if e.attr in self.node_attrs and self._safe_ty(e.value) == "Int" and not isinstance(e.value, ast.Name):
@@ -1003,6 +1025,8 @@ class Tr:
                 and e.comparators[0].value is None and (self.self_path(e.left) in self.not_none or (isinstance(e.left, ast.Name) and e.left.id in self.not_none)):
             v = self.not_none[e.left.id if isinstance(e.left, ast.Name) else self.self_path(e.left)]
             return v if isinstance(e.ops[0], ast.IsNot) else f"(! {v})"
+        if self.is_mask_ge(e):
+            return f"(Imp.maskGE {self.E(e.left, env)} {self.E(e.comparators[0], env)})"
         if self.is_mask_expr(e):
             return f"(({self.E(e.left, env)}).map fun v => if v > {self.E(e.comparators[0], env)} then (1 : Int) else 0)"
         if isinstance(e, ast.Compare):
@@ -1137,6 +1161,8 @@ class Tr:
             return bor(*[self.oob(x, env) for x in parts])
         if self.is_mask_index(e):
             return f"decide (({self.E(e.value.args[0], env)}) ≠ Imp.leni {self.E(e.slice, env)})"
+        if self.is_mask_ge(e):
+            return bor(self.oob(e.left, env), self.oob(e.comparators[0], env), f"decide (Imp.leni {self.E(e.left, env)} ≠ Imp.leni {self.E(e.comparators[0], env)})")
         if self.is_mask_expr(e):
             return bor(self.oob(e.left, env), self.oob(e.comparators[0], env))
         if isinstance(e, ast.Subscript) and isinstance(e.slice, ast.Slice):
@@ -1333,6 +1359,13 @@ class Tr:
                 env = self.pre([st.value, t.slice], L)
                 i = self.E(t.slice, env)
                 L.append(f"{{ s with err := s.err || (! Imp.inb s.{fld} {i}), {fld} := Imp.seti s.{fld} {i} {self.E(st.value, env)} }}")
+                return L
+            if isinstance(t, ast.Subscript) and self.self_path(t.value) in self.self_arrays and isinstance(t.slice, ast.Name) and self._safe_ty(t.slice) == "Arr" \
+                    and isinstance(st.value, ast.Subscript) and isinstance(st.value.slice, ast.Name) and st.value.slice.id == t.slice.id and self._safe_ty(st.value.value) == "Arr":
+                # X[mask] = Y[mask] : the entries at which the mask is set are taken from Y (all three arrays of one length)
+                fld = "arr" + self.self_path(t.value)
+                m, y = self.E(t.slice, {}), self.E(st.value.value, {})
+                L.append(f"{{ s with err := s.err || decide (Imp.leni s.{fld} ≠ Imp.leni {m}) || decide (Imp.leni {y} ≠ Imp.leni {m}), {fld} := Imp.maskSet s.{fld} {m} {y} }}")
                 return L
             if isinstance(t, ast.Attribute) and self.self_path(t) in self.self_state:
                 env = self.pre([st.value], L)
@@ -1584,6 +1617,8 @@ class Tr:
         if self.self_state:
             params = "(self : List Int) " + params
         extra = " ".join(f"({v} : {LTY[t]})" for v, t in list(self.self_attrs.values()) + list(self.ext.values()))
+        extra += "".join(f" ({self.id(n)} : {LTY[t]})" for n, t in cfg.get("inputs", {}).items())
+        extra += "".join(f" ({a_[1:]} : List Int)" for a_ in self.self_arrays)
         extra += "".join(f" ({n} : Int)" for n in sorted(self.keyconsts))
         if self.streams:
             if "us" in self.used_streams:
@@ -1614,7 +1649,7 @@ class Tr:
                 f"structure {name}.S where\n{fields}  brk : Bool := false\n  cnt : Bool := false\n  err : Bool := false\n  dry : Bool := false\n"
                 f"  ku : Nat := 0\n  kn : Nat := 0\n  kr : Nat := 0\n" + ("  kx : Nat := 0\n" if (self.ext_stream or self.ext_fn or self.opaque_fn) else "") + ("  kb : Nat := 0\n  log : List Int := []\n" if (self.bool_stream or self.actions) else "") + "\n"
                 f"def {name} {params} {extra} : Option ({LTY[cfg['ret']]}) :=\n"
-                f"  let s : {name}.S := {{" + ", ".join(f"self{a} := Imp.geti self ({k} : Int)" for k, a in enumerate(self.self_state)) + f"}}\n{fuel}{body}\n\nend TFV.Generated.Src\n")
+                f"  let s : {name}.S := {{" + ", ".join([f"self{a} := Imp.geti self ({k} : Int)" for k, a in enumerate(self.self_state)] + [f"arr{a_} := {a_[1:]}" for a_ in self.self_arrays]) + f"}}\n{fuel}{body}\n\nend TFV.Generated.Src\n")
 
 
 NP_FUNCS = ("split", "float64", "int64", "floor", "array", "empty", "zeros", "empty_like", "arange", "cumsum", "argmax")
@@ -1642,6 +1677,14 @@ def translate(repo: Path, cfg: dict) -> str:
             raise NotRecognised(f"the untranslated tail no longer uses {missing}")
         body.append(ast.Return(value=ast.List(elts=[ast.Name(id=r, ctx=ast.Load()) for r in cfg["returns"]], ctx=ast.Load())))
         fn = ast.FunctionDef(name=fn.name, args=fn.args, body=body, decorator_list=[], returns=None, type_comment=None)
+        ast.fix_missing_locations(fn)
+    if cfg.get("start_at"):
+        # suffix translation: the statements from the first one starting with `start_at` on; then `return [self arrays]`
+        cut = next((k for k, st in enumerate(fn.body) if ast.unparse(st).startswith(cfg["start_at"])), None)
+        if cut is None:
+            raise NotRecognised(f"statement '{cfg['start_at']}' not found")
+        ret = ast.Return(value=ast.List(elts=[ast.Attribute(value=ast.Name(id="self", ctx=ast.Load()), attr=a_, ctx=ast.Load()) for a_ in cfg["self_arrays"]], ctx=ast.Load()))
+        fn = ast.FunctionDef(name=fn.name, args=fn.args, body=fn.body[cut:] + [ret], decorator_list=[], returns=None, type_comment=None)
         ast.fix_missing_locations(fn)
     if cfg.get("return_call_kwargs"):
         # the last statement must be the named call; it is replaced by `return [[scalars...], series...]` of its keyword values
